@@ -32,14 +32,23 @@ RULE = ("op lines come from one seeded PRNG: GF(256) products exhaustively; Sham
         "transcript replayed; SLIP39 share subsets (qualifying and not) in random order; BIP39 sentences in all 12 "
         "languages with every-position single-word substitutions; a case is non-trivial when the implementation "
         "did not refuse it; distinct = distinct (stream, op line)")
-TRUSTED = ["unicodedata.normalize (NFKD) and the word-list files: word <-> index is an opaque bijection, checked "
-           "exhaustively each run, not proved",
+TRUSTED = ["unicodedata (normalize / combining / str.lower / str.split: called by the references of harness/c13_text.py and by "
+           "btclib alike) and the word-list files: word <-> index is an opaque bijection, checked exhaustively each run "
+           "(oracle wordlist.bijection) and by the translator (duplicate-free, NFKD-normal, hashed), not proved in Lean",
+           "text normalisation (NFKD, Electrum's normalize_text) is not modelled: it is decided on hostile Unicode text by "
+           "the oracles electrum.text / electrum.spelling / bip39.text against references written from the specifications",
            "PBKDF2 / HMAC / SHA-2 instances of the model are validated against hashlib each run, not verified",
            "SLIP39 PBKDF2: the model runs iteration exponents 0..2 (streams feistel/master/generate); exponents 0..5, "
            "the library defaults (e = 1, extendable) and the flag are checked against hashlib.pbkdf2_hmac with an "
            "independently written iteration count (oracle slip39.kdf); exponents above 5 are not exercised",
            "BIP85: the BIP32 child derivation is btclib's own (property C07); only the HMAC step is modelled"]
-ASSUMPTIONS = ["probability claims (a wrong passphrase gives a *different* secret) are tested, not proved"]
+ASSUMPTIONS = ["a wrong passphrase gives a *different* secret: proved equivalent to `the two passphrases do not encrypt the "
+               "secret to the same ciphertext` (slip39_wrong_passphrase_characterised); that PBKDF2-HMAC-SHA256 under two "
+               "passphrases does not is assumed and tested",
+               "hypotheses carried by counted theorems: hF/hF' (round functions preserve length; proved for the executable one: "
+               "executable_lengths), hhm (HMAC output >= DIGEST_BYTES; proved for hmacSha256), hH of the *_any_hash variants, "
+               "the entropy-source shape hypotheses hgr/hmr (string counts and lengths as _split_secret asks for them), "
+               "W.Nodup in wordlist_index_of_word (checked by the translator, not proved)"]
 
 BIP39_LANGS = list(BIP39_LANGUAGE_FILES)
 ENT_SIZES = (128, 160, 192, 224, 256)
